@@ -57,6 +57,7 @@ try:
         meta['ran'].append('git -C /repo apply patch.diff && ./check %s --tier quick -> exit %d' % (cid, rcc))
 finally:
     sh('git -C /repo checkout -- .')
+    sh('git -C /verif checkout -- evidence')          # evidence written with the patch applied is not evidence about /repo
 meta['checks'] = results
 meta['detected_by'] = [c for c, r in results.items() if r['exit'] == 1]
 dst = '/verif/seeded/%s-%s' % (pid, k)
